@@ -4,7 +4,9 @@ import (
 	"bytes"
 	"encoding/binary"
 	"encoding/hex"
+	"encoding/json"
 	"fmt"
+	"os"
 	"sync"
 	"time"
 
@@ -437,11 +439,21 @@ func (f *fz) c09One(idx int) bool {
 		f.r.Sample(wit())
 	}
 	viol := func(key, what string) { reportViolation(f.r, key, what, wit()) }
+	f.judgeSCMPError(s, v, raw, h, &res, cname, cause >= 0, ex, opts.Epic, outcome, t0, t1, viol)
+	return true
+}
+
+// judgeSCMPError applies the C09 oracle to one SCMP error message the router
+// emitted (res.Out) in answer to the offending packet raw, whose header
+// layout (before any defect injection that changes lengths) is h.
+func (f *fz) judgeSCMPError(s *rfix.Star, v starVariant, raw []byte, h *rfix.Hdr, res *rfix.Result, cname string,
+	haveCause bool, ex expectation, epic bool, outcome string, t0, t1 time.Time, viol func(key, what string)) {
+	offErr, offSCMP, offKnown := isSCMPError(raw)
 	out := res.Out
 	// (1) never in response to an SCMP error
 	if offKnown && offErr {
 		viol("C09:error-for-scmp-error", fmt.Sprintf("an SCMP error (%s) was generated in response to a packet that itself carries an SCMP error message (type %d)", outcome, raw[walkChain(raw).l4Off]))
-		return true
+		return
 	}
 	if offKnown && offSCMP {
 		f.a.event("scmp_info_offender_answered")
@@ -454,12 +466,12 @@ func (f *fz) c09One(idx int) bool {
 	jv := judgeSCION(out, &f.sl)
 	if !jv.ok {
 		viol("C09:malformed:"+jv.cat, "emitted SCMP packet is not a consistent SCION packet: "+jv.detail)
-		return true
+		return
 	}
 	m := rfix.ParseSCMP(out)
 	if !m.OK {
 		viol("C09:unparsable-scmp", "emitted packet does not carry a well-formed SCMP error message")
-		return true
+		return
 	}
 	oh := m.Hdr
 	// (4) addressed to the offender's source, from this router
@@ -476,14 +488,14 @@ func (f *fz) c09One(idx int) bool {
 		viol("C09:checksum", "checksum over pseudo header and SCMP message does not fold to 0xffff")
 	}
 	// (6) type, code, pointer
-	if cause >= 0 {
+	if haveCause {
 		if m.Type != ex.typ || m.Code != ex.code {
 			viol("C09:wrong-typecode:"+cname, fmt.Sprintf("SCMP %d/%d for injected cause %s, expected %d/%d", m.Type, m.Code, cname, ex.typ, ex.code))
 		} else if ex.typ == 4 {
 			switch {
 			case ex.ptr < 0:
 				f.a.class(fmt.Sprintf("pointer-not-judged:%s=%d", cname, m.Pointer))
-			case int(m.Pointer) != ex.ptr && opts.Epic:
+			case int(m.Pointer) != ex.ptr && epic:
 				viol("C09:wrong-pointer:epic", fmt.Sprintf("pointer %d does not designate the offending field at offset %d of the EPIC packet", m.Pointer, ex.ptr))
 			case int(m.Pointer) != ex.ptr:
 				viol("C09:wrong-pointer:"+cname, fmt.Sprintf("pointer %d does not designate the offending field at offset %d", m.Pointer, ex.ptr))
@@ -535,7 +547,6 @@ func (f *fz) c09One(idx int) bool {
 	if v.Auth {
 		f.checkAuth(out, &m, t0, t1, viol)
 	}
-	return true
 }
 
 // maskMutable zeroes, in a prefix b of a packet with header layout h, the path
@@ -640,6 +651,10 @@ func checkC09(r *mon.Run) {
 		"quoted bytes are compared modulo the path state a router updates before detecting the problem (CurrINF/CurrHF, SegID, router-alert flags)",
 		"expired-hop and authenticator-timestamp cases use the time-bracket rule; a router panic is counted as inconclusive here (it is C08's subject)",
 	}
+	if rp := r.ReplayFile(); rp != "" {
+		replayC09(r, rp)
+		return
+	}
 	workers := r.Pick(8, 16)
 	cases := r.Pick(9000, 400_000) // per worker
 	li := openLastInput(r, workers)
@@ -678,4 +693,59 @@ func checkC09(r *mon.Run) {
 	}
 	r.Require(int64(workers*cases*9/10), 400, need...)
 	r.RequireClasses("placement:headroom/auth", "placement:headroom/noauth", "placement:packed-at-end/auth", "placement:packed-at-end/noauth")
+}
+
+// replayC09 re-runs the offending packet of a witness on the same router
+// configuration and judges the answer against the expectation recorded in it.
+func replayC09(r *mon.Run, path string) {
+	b, err := os.ReadFile(path)
+	var file struct {
+		Witness c09Witness `json:"witness"`
+	}
+	if err == nil {
+		err = json.Unmarshal(b, &file)
+	}
+	if err != nil || file.Witness.Input == "" {
+		fmt.Println("replay: cannot read witness:", err)
+		return
+	}
+	w := file.Witness
+	v := w.Star
+	for _, cv := range c09Variants {
+		if cv.Idx == v.Idx {
+			v = cv
+		}
+	}
+	s := newFuzzStar(r, v)
+	f := &fz{r: r, rng: r.Rand("replay"), a: newAgg(r), li: &lastInput{}, variants: []starVariant{v}, stars: []*rfix.Star{s}}
+	raw, _ := hex.DecodeString(w.Input)
+	in := w.ingress()
+	ex := expectation{ptr: -1}
+	var t, c uint8
+	fmt.Sscanf(w.Expect, "type %d code %d pointer %d", &t, &c, &ex.ptr)
+	ex.typ, ex.code = t, c
+	hb := append([]byte(nil), raw...)
+	if len(hb) >= 8 && int(hb[5])*4 <= len(hb) { // layout only: make PayloadLen consistent for the reference parser
+		binary.BigEndian.PutUint16(hb[6:], uint16(len(hb)-int(hb[5])*4))
+	}
+	h, err := rfix.ParseHdr(hb)
+	if err != nil {
+		fmt.Println("replay: offending packet has no parsable layout:", err)
+		return
+	}
+	t0 := time.Now()
+	res := s.Process(raw, in)
+	t1 := time.Now()
+	f.a.eval()
+	fmt.Printf("replay: cause %s expected %q -> %s output %x\n", w.Cause, w.Expect, outcomeOf(&res), res.Out)
+	if res.ViaSlow && res.SlowKind >= 0 && res.Out != nil {
+		viol := func(key, what string) {
+			reportViolation(r, key, what, c09Witness{fuzzWitness: mkWitness(s, v, "replay", raw, in, &res), Cause: w.Cause, Scenario: w.Scenario, Expect: w.Expect})
+		}
+		f.judgeSCMPError(s, v, raw, h, &res, w.Cause, w.Cause != "valid" && w.Cause != "if-down", ex, raw[8] == 3, outcomeOf(&res), t0, t1, viol)
+	}
+	f.a.flush()
+	r.Class("replay")
+	r.Class("replay-2")
+	r.Sample(map[string]any{"replayed": w.Cause, "outcome": outcomeOf(&res)})
 }
